@@ -123,6 +123,9 @@ def run(chk):
             vs = [w for k, b in enumerate(bs) if not b.get("vskip") for w in value_variants(b)]
             if chk.quick:
                 vs = vs[::2] if c == "secq256k1" else vs[1::2]
+            elif len(vs) > 120000:
+                k = (len(vs) + 119999) // 120000
+                vs = vs[::k] if c == "secq256k1" else vs[k // 2::k]
             bs = bs + vs
         rows = vlib.replay(chk, c, bs, "mcb")
         report(chk, rows, "handles")
